@@ -10,18 +10,20 @@ package main
 //	    operation) — logical state = start object + mutations applied, whatever queries and
 //	    unrelated decodes happened in between — and observables after a mutation are
 //	    independent of the queries that preceded it;
-//	I3  results equal those computed in a pristine process.
+//	I3  results equal those computed in pristine processes (one fresh process per entry).
 
 import (
 	"bytes"
 	"crypto/sha256"
-	"encoding/json"
 	"fmt"
 	"io"
 	"os"
 	"os/exec"
 	"sort"
+	"strconv"
 	"strings"
+	"sync"
+	"sync/atomic"
 
 	"cvssmc/internal/dump"
 	"cvssmc/internal/ev"
@@ -258,6 +260,10 @@ func histOps(thorough bool) []histOp {
 	return ops
 }
 
+// histPristine is the table of results computed in pristine processes (shared with
+// neighbourOrders).
+var histPristine map[string]string
+
 type histPath struct {
 	ops  []int
 	muts int
@@ -304,7 +310,8 @@ func histRun(r *ev.Run, thorough bool) {
 	firstPath := map[string][]string{}
 	var states, transitions, globalsChanged, dumpChanged int64
 	outcomes := map[string]bool{}
-	pristine := pristineTable(r)
+	pristine := pristineTable(r, thorough)
+	histPristine = pristine
 	for si := range starts {
 		st := &starts[si]
 		seen := map[[32]byte]bool{}
@@ -375,10 +382,8 @@ func histRun(r *ev.Run, thorough bool) {
 						} else {
 							tab[key] = res
 							firstPath[key] = describePath(st, ops, full)
-							if len(p.ops) == 0 {
-								if pv, ok := pristine[key]; ok && pv != hashStr(res) {
-									r.Violate(ev.Violation{Kind: "result-differs-from-pristine-process", Case: cs, Observed: res, Expected: "the result computed by a fresh process (hash " + pv + ")"})
-								}
+							if pv, ok := pristine[key]; ok && pv != hashStr(res) {
+								r.Violate(ev.Violation{Kind: "result-differs-from-pristine-process", Case: cs, Observed: res, Expected: "the result of the same single operation as the first thing a fresh process does (hash " + pv + ")"})
 							}
 						}
 					case 'm':
@@ -436,54 +441,79 @@ func hashStr(s string) string {
 	return fmt.Sprintf("%x", h[:8])
 }
 
-// pristineTable asks a fresh process for the results of every single operation on every start
-// object (I3).  The child computes them in reverse order, i.e. with another history.
-func pristineTable(r *ev.Run) map[string]string {
+// pristineTable computes, each in its own fresh process, the result of every single operation on
+// every start object, of every process-history operation, and of every neighbour vector (I3).
+// One process per entry: nothing has been decoded, scored or reported before it in that process.
+func pristineTable(r *ev.Run, thorough bool) map[string]string {
 	exe, err := os.Executable()
 	if err != nil {
+		r.Infra("cannot locate own executable: " + err.Error())
 		return nil
 	}
-	cmd := exec.Command(exe, "hist-pristine", r.Tier)
-	var out bytes.Buffer
-	cmd.Stdout = &out
-	cmd.Stderr = os.Stderr
-	if err := cmd.Run(); err != nil {
-		r.Infra("pristine child process failed: " + err.Error())
-		return nil
+	type entry struct {
+		key  string
+		args []string
 	}
-	tab := map[string]string{}
-	if err := json.Unmarshal(out.Bytes(), &tab); err != nil {
-		r.Infra("pristine child process output: " + err.Error())
-		return nil
+	var entries []entry
+	starts, ops := histStarts(thorough), histOps(thorough)
+	seenD := map[string]bool{}
+	for si := range starts {
+		for oi := range ops {
+			op := &ops[oi]
+			if op.kind == 'm' || !op.ok(&starts[si]) {
+				continue
+			}
+			key := logicalKey(si, ops, nil) + "|" + op.name
+			if op.kind == 'd' {
+				key = op.name
+				if seenD[key] {
+					continue
+				}
+				seenD[key] = true
+			}
+			entries = append(entries, entry{key, []string{"op", fmt.Sprint(si), fmt.Sprint(oi)}})
+		}
+	}
+	for si, set := range neighbourSets(thorough) {
+		for vi, v := range set {
+			entries = append(entries, entry{"nb|" + v.s, []string{"nb", fmt.Sprint(si), fmt.Sprint(vi)}})
+		}
+	}
+	tab := make(map[string]string, len(entries))
+	var mu sync.Mutex
+	var failed int64
+	safeParallel(r, len(entries), func(i int) {
+		e := entries[i]
+		cmd := exec.Command(exe, append([]string{"hist-entry", r.Tier}, e.args...)...)
+		var out bytes.Buffer
+		cmd.Stdout = &out
+		if err := cmd.Run(); err != nil {
+			atomic.AddInt64(&failed, 1)
+			return
+		}
+		mu.Lock()
+		tab[e.key] = strings.TrimSpace(out.String())
+		mu.Unlock()
+	})
+	if failed > 0 {
+		r.Infra(fmt.Sprintf("%d pristine child processes failed", failed))
 	}
 	return tab
 }
 
-func histPristineMain(tier string) {
-	thorough := tier == "thorough"
-	starts := histStarts(thorough)
-	ops := histOps(thorough)
-	tab := map[string]string{}
-	for si := len(starts) - 1; si >= 0; si-- {
-		st := &starts[si]
-		for oi := len(ops) - 1; oi >= 0; oi-- {
-			op := &ops[oi]
-			if op.kind == 'm' || !op.ok(st) {
-				continue
-			}
-			o := st.make()
-			res := safeRun(func() string { return op.run(o) })
-			key := logicalKey(si, ops, nil) + "|" + op.name
-			if op.kind == 'd' {
-				key = op.name
-			}
-			if _, dup := tab[key]; !dup {
-				tab[key] = hashStr(res)
-			}
-		}
+// histEntryMain: one entry of the pristine table, computed as the first thing this process does.
+func histEntryMain(args []string) {
+	thorough := args[0] == "thorough"
+	a, _ := strconv.Atoi(args[2])
+	b, _ := strconv.Atoi(args[3])
+	switch args[1] {
+	case "op":
+		starts, ops := histStarts(thorough), histOps(thorough)
+		o := starts[a].make()
+		fmt.Println(hashStr(safeRun(func() string { return ops[b].run(o) })))
+	case "nb":
+		fmt.Println(hashStr(processNeighbour(neighbourSets(thorough)[a][b])))
 	}
-	b, _ := json.Marshal(tab)
-	os.Stdout.Write(b)
 }
 
 func init() {
@@ -566,11 +596,12 @@ func processingOrders(r *ev.Run, thorough bool) {
 // ordered pair (u, v) of N(B) is processed u then v on fresh objects in this one process, and v's
 // complete observables must equal those recorded the first time v was processed.  A cache keyed
 // by an incomplete or colliding digest of the metrics makes some pair differ.
-func neighbourOrders(r *ev.Run, thorough bool) {
-	type nv struct {
-		ver, level int
-		s          string
-	}
+type nv struct {
+	ver, level int
+	s          string
+}
+
+func neighbourSets(thorough bool) [][]nv {
 	var sets [][]nv
 	for _, bg := range reportBackgrounds() {
 		var set []nv
@@ -603,19 +634,27 @@ func neighbourOrders(r *ev.Run, thorough bool) {
 		}
 		sets = append(sets, set)
 	}
-	process := func(v nv) string {
-		o, err, pan := lib.DecodeNew(v.ver, v.level, v.s)
-		if o == nil {
-			return fmt.Sprintf("rejected %s panic=%q", lib.Class(err), pan)
-		}
-		res := observables(o)
-		for lv := 0; lv < v.level; lv++ {
-			res += "|" + lib.Observe(lib.Sub(o, lv)).String()
-		}
-		res += "|" + observables(o) // and again after the sub-views were queried
-		return res
+	return sets
+}
+
+func processNeighbour(v nv) string {
+	o, err, pan := lib.DecodeNew(v.ver, v.level, v.s)
+	if o == nil {
+		return fmt.Sprintf("rejected %s panic=%q", lib.Class(err), pan)
 	}
+	res := observables(o)
+	for lv := 0; lv < v.level; lv++ {
+		res += "|" + lib.Observe(lib.Sub(o, lv)).String()
+	}
+	res += "|" + observables(o) // and again after the sub-views were queried
+	return res
+}
+
+func neighbourOrders(r *ev.Run, thorough bool) {
+	sets := neighbourSets(thorough)
+	process := processNeighbour
 	var pairs, vectors int64
+	reported := map[string]bool{}
 	for _, set := range sets {
 		first := map[string]string{}
 		vectors += int64(len(set))
@@ -628,6 +667,10 @@ func neighbourOrders(r *ev.Run, thorough bool) {
 					v nv
 					r string
 				}{{u, ru}, {v, rv}} {
+					if pv, ok := histPristine["nb|"+x.v.s]; ok && pv != hashStr(x.r) && !reported[x.v.s] {
+						reported[x.v.s] = true
+						r.Violate(ev.Violation{Kind: "result-differs-from-pristine-process", Case: map[string]any{"processed_first": u.s, "then": v.s, "vector": x.v.s}, Observed: x.r, Expected: "what the same vector gives as the first thing a fresh process does (hash " + pv + ")"})
+					}
 					if exp, ok := first[x.v.s]; ok {
 						if x.r != exp {
 							r.Violate(ev.Violation{Kind: "result-depends-on-processing-order", Case: map[string]any{"processed_first": u.s, "then": v.s, "vector": x.v.s}, Observed: x.r, Expected: exp + "  (what the same vector gave the first time it was processed)"})
